@@ -25,10 +25,36 @@ func oraclePartial(x *xcase, r *xresult) (bool, string) {
 	if isWriteAPI(x.api) {
 		plan = x.wfail
 	}
-	for o := x.off; o < limit; o += x.p {
-		if cd, bad := plan[uint64(o)]; bad {
-			lowest, code = o, cd
-			break
+	if !isWriteAPI(x.api) && x.maxtx < x.p {
+		// the server hands out at most maxtx bytes per READ, fewer than a chunk: within each chunk the client asks again for the rest,
+		// so the requests start where the data received so far ends (these cases run on the sequential paths only)
+		for pos := x.off; pos < limit && pos < x.flen+x.p; {
+			if cd, bad := plan[uint64(pos)]; bad {
+				lowest, code = pos, cd
+				break
+			}
+			chunkEnd := x.off + ((pos-x.off)/x.p+1)*x.p
+			if chunkEnd > limit {
+				chunkEnd = limit
+			}
+			got := chunkEnd - pos
+			if got > x.maxtx {
+				got = x.maxtx
+			}
+			if pos+got > x.flen {
+				got = x.flen - pos
+			}
+			if got <= 0 {
+				break
+			}
+			pos += got
+		}
+	} else {
+		for o := x.off; o < limit; o += x.p {
+			if cd, bad := plan[uint64(o)]; bad {
+				lowest, code = o, cd
+				break
+			}
 		}
 	}
 	if (x.api == "writeat" || x.api == "write") && x.n == 0 {
@@ -207,6 +233,27 @@ func runC13(c *Ctx) {
 				}
 			}
 		}
+	}
+	// a server that hands out less than a chunk per READ (legal) and refuses one of the follow-up READs inside a chunk: the data
+	// received before it is an intact prefix, the refusal is reported - never a short count with a nil error (sequential paths and
+	// single-packet reads: the concurrent read path needs packets no larger than the server's payload)
+	for i := 0; i < budget/10; i++ {
+		p := []int{4, 6, 8}[i%3]
+		mt := []int{p / 2, p - 1, 1, 3}[(i/3)%4]
+		api := []string{"readat", "read", "writeto"}[i%3]
+		x := &xcase{api: api, p: p, conc: 2, cr: false, cw: false, fst: i%2 == 0, flen: 4*p + 1, n: []int{p, 3*p + 1, p - 1}[(i/4)%3], off: []int{0, 1, p}[(i/2)%3],
+			maxtx: mt, src: "opaque", backend: []string{"peer", "req"}[i%2], regular: true}
+		if x.n <= p && i%4 == 0 && api != "writeto" {
+			x.cr = true // a read that fits in one packet takes the same loop whatever the option says
+		}
+		// refuse a follow-up: an offset inside a chunk, reached only after a short answer
+		k := i % 3
+		x.rfail = map[uint64]uint32{uint64(x.off + k*p + mt): codes[i%3]}
+		if x.backend == "req" {
+			continue // the in-package server fills every READ of a regular file: no follow-ups to refuse
+		}
+		c.Stat("refused_follow_up_reads")
+		one(x)
 	}
 	for count < budget {
 		p := 1 + c.Rng.Intn(4)
